@@ -219,3 +219,12 @@ func (p *Prog) FuncDecl(name string) *ast.FuncDecl {
 	}
 	return nil
 }
+
+// WithCHA returns a view of the program whose call graph is the (coarser) CHA graph, with all
+// derived analyses reset; used by the thorough tier to re-decide reachability-based rules.
+func (p *Prog) WithCHA() *Prog {
+	q := *p
+	q.CG = p.CHA
+	q.eff, q.nila, q.bimaps = nil, nil, nil
+	return &q
+}
